@@ -182,9 +182,16 @@ impl Gen {
         let heavy = matches!(self.focus, Focus::Constraints | Focus::Failing);
         let nt = match self.focus {
             Focus::Constraints => self.rng.usize(2, 3),
-            Focus::Failing => 1,
+            Focus::Failing => {
+                if self.rng.chance(1, 3) {
+                    2
+                } else {
+                    1
+                }
+            }
             _ => self.rng.usize(1, 2),
         };
+        let with_fk = self.focus == Focus::Constraints || (self.focus == Focus::Failing && nt == 2);
         let mut out = vec![];
         let mut neg_default_used = false;
         for ti in 0..nt {
@@ -192,7 +199,7 @@ impl Gen {
             let mut cols = vec![];
             let with_pk = match self.focus {
                 Focus::Dml | Focus::Txn => self.rng.chance(2, 3),
-                Focus::Constraints if ti == 0 => true,
+                Focus::Constraints | Focus::Failing if ti == 0 && with_fk => true,
                 _ => self.rng.chance(5, 6),
             };
             let auto = with_pk && (self.focus == Focus::AutoInc || self.rng.chance(1, 8));
@@ -223,7 +230,7 @@ impl Gen {
             }
             let mut def = TableDef { name: name.clone(), cols, pk: if with_pk { vec!["id".into()] } else { vec![] }, fks: vec![], indexes: vec![] };
             // FK from t1.. to t0.id
-            if ti > 0 && self.focus == Focus::Constraints {
+            if ti > 0 && with_fk {
                 let action = if self.rng.chance(1, 2) { FkAction::Cascade } else { FkAction::Restrict };
                 let cand = def.cols.iter().position(|c| c.ty == Ty::Int && c.name != "id" && c.check.is_none() && !c.unique);
                 let ci = match cand {
@@ -234,7 +241,7 @@ impl Gen {
                     }
                 };
                 def.cols[ci].default = None;
-                def.fks.push(FkDef { col: def.cols[ci].name.clone(), ref_table: "t0".into(), ref_col: "id".into(), on_delete: action });
+                def.fks.push(FkDef { col: def.cols[ci].name.clone(), ref_table: "t0".into(), ref_col: "id".into(), on_delete: action, on_update_restrict: self.rng.chance(1, 3) });
             }
             self.tables.push(def.clone());
             out.push(Stmt::CreateTable(def));
@@ -1201,6 +1208,12 @@ fn coverage(cov: &mut BTreeMap<String, u64>, before: &MDb, s: &Stmt, m: &Result<
 
 /// run a history on a fresh database; stops at the first violation
 pub fn run_history(scratch: &Scratch, tag: &str, stmts: &[Stmt]) -> RunOut {
+    run_history_opt(scratch, tag, stmts, false)
+}
+
+/// `fast`: the full state is observed only after the last statement and after statements both sides reject
+/// (used for minimisation candidates; the result is re-checked with a full run)
+fn run_history_opt(scratch: &Scratch, tag: &str, stmts: &[Stmt], fast: bool) -> RunOut {
     let mut out = RunOut { viol: None, extra: vec![], executed: 0, dropped_unsupported: false, kinds: BTreeMap::new(), cov: BTreeMap::new(), failing_stmts: 0, rollbacks: 0 };
     let mut db = match Db::create(&scratch.dir(tag)) {
         Ok(d) => d,
@@ -1280,7 +1293,7 @@ pub fn run_history(scratch: &Scratch, tag: &str, stmts: &[Stmt]) -> RunOut {
                         finish(&mut out, vs);
                         return out;
                     }
-                } else if s.is_mutation() {
+                } else if s.is_mutation() && (!fast || i + 1 == stmts.len()) {
                     let o = observe(&mut db, &model);
                     let vs = judge_state(&o, &model, &before, i, s, "state_matches_model", "state", None);
                     if !vs.is_empty() {
@@ -1293,6 +1306,9 @@ pub fn run_history(scratch: &Scratch, tag: &str, stmts: &[Stmt]) -> RunOut {
                 // both reject: the visible state must be exactly what it was (model.apply left the model untouched)
                 out.failing_stmts += 1;
                 let why = why.replace("constraint:", "").replace(' ', "_");
+                if fast && i + 1 != stmts.len() {
+                    continue;
+                }
                 let o = observe(&mut db, &model);
                 let vs = judge_state(&o, &model, &before, i, s, "unchanged_after_error", "error_atomicity", Some(&why));
                 if !vs.is_empty() {
@@ -1301,8 +1317,12 @@ pub fn run_history(scratch: &Scratch, tag: &str, stmts: &[Stmt]) -> RunOut {
                 }
             }
             (Ok(_), Err(e)) => {
+                // a rejection that names a constraint belongs to "constraints hold exactly"; any other error on a valid
+                // statement is a wrong DML result
                 let dml = matches!(s, Stmt::Insert { .. } | Stmt::Update { .. } | Stmt::Delete { .. });
-                let class = if dml { "constraint" } else { "dml_result" };
+                let el = e.to_lowercase();
+                let names_constraint = ["constraint", "violat", "referenced", "unique", "foreign key", "not null", "primary key", "check"].iter().any(|w| el.contains(w));
+                let class = if dml && names_constraint { "constraint" } else { "dml_result" };
                 // facts that tell apart the usual suspects
                 let mut core = format!("{}_rejected:{}", kind0(s), err_class(e));
                 if let Stmt::Update { table, sets, .. } = s {
@@ -1336,7 +1356,7 @@ pub fn run_history(scratch: &Scratch, tag: &str, stmts: &[Stmt]) -> RunOut {
                         core.push_str(":key_assigned_its_own_value");
                     }
                 }
-                out.viol = Some(viol(class, "valid_statement_accepted", core, i, json!({"sql": s.sql(), "error": e})));
+                out.viol = Some(viol(class, if class == "constraint" { "valid_statement_accepted" } else { "ok_vs_err" }, core, i, json!({"sql": s.sql(), "error": e})));
                 return out;
             }
             (Err(MErr::Error(why)), Ok(o)) => {
@@ -1507,6 +1527,42 @@ fn stmt_variants(stmts: &[Stmt], j: usize) -> Vec<Stmt> {
             if where_.is_some() {
                 v.push(Stmt::Update { table: table.clone(), sets: sets.clone(), where_: None, returning: *returning });
             }
+            // an expression that yields the same value for every row it is applied to -> that literal
+            if sets.iter().any(|(_, e)| !matches!(e, E::Lit(_))) {
+                let mut m = MDb::default();
+                for s0 in &stmts[..j] {
+                    let _ = m.apply(s0);
+                }
+                m.txn = None;
+                let tk = table.to_lowercase();
+                for (_, t) in m.st.tables.iter_mut() {
+                    t.0.fks.clear();
+                    t.0.pk.clear();
+                    t.0.indexes.clear();
+                    for c in t.0.cols.iter_mut() {
+                        c.unique = false;
+                        c.not_null = false;
+                        c.check = None;
+                    }
+                }
+                let def = m.st.tables.get(&tk).map(|x| x.0.clone());
+                if let (Some(def), Ok(eff)) = (def, m.apply(&Stmt::Update { table: table.clone(), sets: sets.clone(), where_: where_.clone(), returning: true })) {
+                    let changed = eff.returning.unwrap_or_default();
+                    for (si, (c, e)) in sets.iter().enumerate() {
+                        if matches!(e, E::Lit(_)) {
+                            continue;
+                        }
+                        if let Some(ci) = def.col_idx(c) {
+                            let vals: BTreeSet<String> = changed.iter().map(|r| r[ci].key(false)).collect();
+                            if vals.len() == 1 {
+                                let mut ss = sets.clone();
+                                ss[si].1 = E::Lit(changed[0][ci].clone());
+                                v.push(Stmt::Update { table: table.clone(), sets: ss, where_: where_.clone(), returning: *returning });
+                            }
+                        }
+                    }
+                }
+            }
             if *returning {
                 v.push(Stmt::Update { table: table.clone(), sets: sets.clone(), where_: where_.clone(), returning: false });
             }
@@ -1536,6 +1592,20 @@ fn stmt_variants(stmts: &[Stmt], j: usize) -> Vec<Stmt> {
                 n.fks.clear();
                 had
             });
+            push(&|n| {
+                let had = n.fks.iter().any(|f| f.on_update_restrict);
+                for f in n.fks.iter_mut() {
+                    f.on_update_restrict = false;
+                }
+                had
+            });
+            push(&|n| {
+                let had = n.fks.iter().any(|f| f.on_delete == FkAction::Cascade);
+                for f in n.fks.iter_mut() {
+                    f.on_delete = FkAction::Restrict;
+                }
+                had
+            });
             for ci in 0..d.cols.len() {
                 push(&|n| std::mem::take(&mut n.cols[ci].auto_inc));
                 push(&|n| n.cols[ci].default.take().is_some());
@@ -1561,16 +1631,34 @@ fn with_where(s: &Stmt, w: Option<E>) -> Stmt {
 /// statements, then the schema; every candidate is re-run on a fresh database and must show the same
 /// (class, assertion, core). Returns the minimal history, the violation as observed on it, and the runs used.
 pub fn minimize(scratch: &Scratch, tag: &str, stmts: &[Stmt], target: &Viol, budget: usize) -> (Vec<Stmt>, Viol, usize) {
+    minimize_until(scratch, tag, stmts, target, budget, None)
+}
+
+/// like `minimize`, giving up (returning what was reached) at `stop`
+pub fn minimize_until(scratch: &Scratch, tag: &str, stmts: &[Stmt], target: &Viol, budget: usize, stop: Option<std::time::Instant>) -> (Vec<Stmt>, Viol, usize) {
+    // fast candidates first; the result must be confirmed by a full run, else minimise again with full runs
+    let (small, v, n) = minimize_opt(scratch, tag, stmts, target, budget, true, stop);
+    let o = run_history_opt(scratch, tag, &small, false);
+    if let Some(cv) = matches_target(&o, target).filter(|v| v.stmt_index + 1 == small.len()) {
+        return (small, cv, n + 1);
+    }
+    let _ = v;
+    let (small, v, n2) = minimize_opt(scratch, tag, stmts, target, budget, false, stop);
+    (small, v, n + 1 + n2)
+}
+
+fn minimize_opt(scratch: &Scratch, tag: &str, stmts: &[Stmt], target: &Viol, budget: usize, fast: bool, stop: Option<std::time::Instant>) -> (Vec<Stmt>, Viol, usize) {
     let mut cur = stmts.to_vec();
     let mut cur_v = target.clone();
     let mut n = 0usize;
     let try_ = |cand: &[Stmt], n: &mut usize| -> Option<Viol> {
-        if *n >= budget || cand.is_empty() {
+        if *n >= budget || cand.is_empty() || stop.map(|t| std::time::Instant::now() > t).unwrap_or(false) {
+            *n = budget.max(*n);
             return None;
         }
         *n += 1;
-        let o = run_history(scratch, tag, cand);
-        matches_target(&o, target)
+        let o = run_history_opt(scratch, tag, cand, fast);
+        matches_target(&o, target).filter(|v| v.stmt_index + 1 == cand.len())
     };
     for _round in 0..2 {
         let before_len = (cur.len(), cur.iter().map(|s| s.sql().len()).sum::<usize>());
@@ -1773,12 +1861,12 @@ pub fn traits_of(stmts: &[Stmt], v: &Viol) -> Vec<String> {
             }
         }
         for f in &def.fks {
-            t.insert(format!("fk_child:{}", if f.on_delete == FkAction::Cascade { "cascade" } else { "restrict" }));
+            t.insert(format!("fk_child:{}{}", if f.on_delete == FkAction::Cascade { "cascade" } else { "restrict" }, if f.on_update_restrict { "+on_update_restrict" } else { "" }));
         }
         for (_, (cd, _)) in &model.st.tables {
             for f in &cd.fks {
                 if f.ref_table.eq_ignore_ascii_case(&def.name) && !cd.name.eq_ignore_ascii_case(&def.name) {
-                    t.insert(format!("fk_parent:{}", if f.on_delete == FkAction::Cascade { "cascade" } else { "restrict" }));
+                    t.insert(format!("fk_parent:{}{}", if f.on_delete == FkAction::Cascade { "cascade" } else { "restrict" }, if f.on_update_restrict { "+on_update_restrict" } else { "" }));
                 }
             }
         }
@@ -1867,6 +1955,9 @@ struct Item {
     group: String,
     /// (minimal history, violation on it, runs)
     min: Option<(Vec<Stmt>, Viol, usize)>,
+    /// index of the first violation of the same case (further sub-assertions failing at the same statement are
+    /// minimised starting from the primary's minimal history)
+    primary: Option<usize>,
 }
 
 /// statement-level traits only (cheap, no minimisation needed): used to group violations
@@ -1888,7 +1979,7 @@ pub fn run_prop(a: &Args, prop: &'static str, focus: Focus, rule: &str) -> i32 {
     let max_stmts = if miri { 8 } else { 40 };
     let budget = if quick { 90 } else { 130 };
     // wall budgets (s): histories stop being started after `run_deadline`; minimisation stops at `min_deadline`
-    let (run_deadline, min_deadline) = if quick { (22.0, 42.0) } else { (240.0, 520.0) };
+    let (run_deadline, min_deadline) = if quick { (20.0, 40.0) } else { (240.0, 500.0) };
     let threads = if miri { 1 } else { 8usize };
     let scratch = Scratch::new(&format!("{}-dml", prop.to_lowercase()));
     let results = std::sync::Mutex::new(vec![]);
@@ -1921,14 +2012,18 @@ pub fn run_prop(a: &Args, prop: &'static str, focus: Focus, rule: &str) -> i32 {
     // phase 2: minimise this property's violations; one per group first (round robin), then the rest while time remains
     let mut items: Vec<Item> = vec![];
     for (ci, case) in results.iter().enumerate() {
+        let mut first: Option<usize> = None;
         for v in case.out.viol.iter().chain(case.out.extra.iter()).filter(|v| mine.contains(&v.class)) {
             let cut = case.stmts[..(v.stmt_index + 1).min(case.stmts.len())].to_vec();
             let group = format!("{}/{}/{}", v.assertion, v.core, stmt_traits(&cut, v));
-            items.push(Item { case: ci, v: v.clone(), cut, group, min: None });
+            items.push(Item { case: ci, v: v.clone(), cut, group, min: None, primary: first });
+            if first.is_none() {
+                first = Some(items.len() - 1);
+            }
         }
     }
     let mut rank: BTreeMap<String, usize> = BTreeMap::new();
-    let mut order: Vec<(usize, usize)> = items.iter().enumerate().map(|(k, it)| {
+    let mut order: Vec<(usize, usize)> = items.iter().enumerate().filter(|(_, it)| it.primary.is_none()).map(|(k, it)| {
         let r = rank.entry(it.group.clone()).or_insert(0);
         *r += 1;
         (*r, k)
@@ -1968,7 +2063,21 @@ pub fn run_prop(a: &Args, prop: &'static str, focus: Focus, rule: &str) -> i32 {
                     }
                     let k = todo[q];
                     let it = &items[k];
-                    let r = minimize(scratch, &format!("m{}", t), &it.cut, &it.v, budget);
+                    let stop = Some(start + std::time::Duration::from_secs_f64(min_deadline + 3.0));
+                    let r = minimize_until(scratch, &format!("m{}", t), &it.cut, &it.v, budget, stop);
+                    // a minimisation cut short by the wall budget does not count as minimised
+                    if start.elapsed().as_secs_f64() > min_deadline + 3.0 {
+                        break;
+                    }
+                    // the other sub-assertions of the same case start from the primary's minimal history if they fire there
+                    for (e, other) in items.iter().enumerate().filter(|(_, o)| o.primary == Some(k)) {
+                        let o = run_history(scratch, &format!("m{}", t), &r.0);
+                        let from: &[Stmt] = if matches_target(&o, &other.v).is_some() { &r.0 } else { &other.cut };
+                        let re = minimize_until(scratch, &format!("m{}", t), from, &other.v, budget, stop);
+                        if start.elapsed().as_secs_f64() <= min_deadline + 3.0 {
+                            done.lock().unwrap().push((e, re));
+                        }
+                    }
                     done.lock().unwrap().push((k, r));
                 });
             }
